@@ -324,6 +324,8 @@ class C20Session(Session):
         for lst in _SCRIBBLE:  # ... and its list values (given as keywords or inside the dict)
             lst.append("scribbled-by-caller")
         _SCRIBBLE.clear()
+        if getattr(self, "_defer_style_access", False):
+            return o  # the style stays pending: the caller copies the object first
         o.style  # noqa: B018  lazily created style: invalid input surfaces here at the latest
         return o
 
@@ -494,13 +496,27 @@ class C20Session(Session):
                     M.set_obj(i, leaf, v)
         elif k == "new_obj":
             holder = {}
-            out = self._guard(lambda: holder.setdefault("o", self._construct(op["cls"], op["items"], op["notation"])))
+            self._defer_style_access = bool(op.get("then_copy"))
+            try:
+                out = self._guard(lambda: holder.setdefault("o", self._construct(op["cls"], op["items"], op["notation"])))
+            finally:
+                self._defer_style_access = False
             if out == "ok":
                 o = holder["o"]
                 w.register(o)
                 i = self._register_model(o)
                 for leaf, v in op["items"]:
                     M.set_obj(i, leaf, v)
+                if op.get("then_copy"):
+                    # copy while the style of the original is still pending (never accessed)
+                    out = self._guard(lambda: holder.setdefault("c", o.copy()))
+                    if out == "ok":
+                        c = holder["c"]
+                        w.register(c)
+                        j = self._register_model(c)
+                        M.S[j] = dict(M.S[i])
+                        M.S[j]["label"] = own_flat(c, j).get("label")  # automatically iterated label
+                        self.probe("copy_of_object_with_pending_style")
         elif k == "def_set":
             out = self._guard(lambda: self._write_default(op["fam"], op["items"], op["notation"]))
             if out == "ok":
@@ -547,6 +563,26 @@ class C20Session(Session):
                     if M.S[first].get(leaf) != want:
                         raise Violation("copy_style_differs", f"copy has {leaf} = {M.S[first].get(leaf)!r}, original "
                                         f"{want!r}", op="copy", leaf=_sigleaf(leaf))
+        elif k == "to_tricoll":
+            # an object derived from another one: TriangularMesh.to_TriangleCollection() hands the mesh style
+            # to the new collection - afterwards the two styles must be independent
+            i = op["o"] % len(w.objs)
+            mesh = w.objs[i]
+            if type(mesh).__name__ == "TriangularMesh":
+                holder = {}
+                out = self._guard(lambda: holder.setdefault("o", mesh.to_TriangleCollection()))
+                if out == "ok":
+                    new = holder["o"]
+                    first = w.register_tree(new)
+                    for j in range(first, len(w.objs)):
+                        mi = self._register_model(w.objs[j])
+                        if j == first:
+                            for leaf in M.S[mi]:
+                                if leaf in M.S[i] and leaf != "model3d_data":
+                                    M.S[mi][leaf] = M.S[i][leaf]
+                        else:
+                            M.S[mi] = {kk: vv for kk, vv in own_flat(w.objs[j], j).items() if kk != "model3d_data"}
+                    self.probe("derived_object_created")
         elif k == "children_styles":
             i = op["o"] % len(w.objs)
             c = w.objs[i]
@@ -798,6 +834,11 @@ class Sim:
         written_obj = [k for s in M.S for k, v in s.items() if v is not None]
         if rng.random() < cfg["p_show"]:
             kind = "show"
+        meshes = [i for i, o in enumerate(w.objs) if type(o).__name__ == "TriangularMesh"]
+        if meshes and n <= 10 and rng.random() < 0.08:
+            op = {"op": "to_tricoll", "o": rng.choice(meshes)}
+            op["probe_kw"] = self._probe_kw(rng, cfg, sess)
+            return op
         if kind in ("copy", "new_obj") and n > 10:
             kind = "obj_set"
         if kind == "obj_set":
@@ -822,6 +863,8 @@ class Sim:
             op = {"op": "new_obj", "cls": cls, "notation": rng.choice(CTOR_NOTATIONS), "items": items}
             if op["notation"] == "ctor_mixed" and rng.random() < 0.35:
                 op["items"] = items = self._same_leaf_twice(rng, items)
+            if rng.random() < 0.25:
+                op["then_copy"] = True
             if cfg["invalid"]:
                 op["invalid"] = [v for v in self._invalid(rng, items, self._leaves(fresh)) if v["kind"] != "partial"]
         elif kind == "def_set":
